@@ -152,6 +152,10 @@ func checkC17Compose(r *Run) {
 		if composedName != "" {
 			fmt.Fprintf(&sb, "      composed_builder_name: %s\n", composedName)
 		}
+		exclude := c%7 == 3
+		if exclude {
+			sb.WriteString("      exclude_options: [title]\n")
+		}
 		sb.WriteString("      composition_map:\n")
 		for _, k := range sortedKeys(cmap) {
 			fmt.Fprintf(&sb, "        %s: %s\n", k, cmap[k])
@@ -170,7 +174,7 @@ func checkC17Compose(r *Run) {
 		pv, _ := guard(func() { after, aerr = rewriter.ApplyTo(schemas, builders, lang) })
 		r.Eval()
 		replay := map[string]any{"veneers": sb.String(), "language": lang, "input_ir": mustJSON(schemas)}
-		ctx := fmt.Sprintf("[compose case %d, %s, %d plugins, deep=%v preserve=%v entrypoint=%q]", c, lang, len(plugins), deep, preserve, entrypoint)
+		ctx := fmt.Sprintf("[compose case %d, %s, %d plugins, deep=%v preserve=%v entrypoint=%q exclude=%v]", c, lang, len(plugins), deep, preserve, entrypoint, exclude)
 		if pv != nil || aerr != nil {
 			r.Violation("veneer/builder.compose/failed", fmt.Sprintf("the compose rule failed on plugin-shaped schemas: panic=%v err=%v %s", pv, aerr, ctx), replay)
 			continue
@@ -231,9 +235,15 @@ func checkC17Compose(r *Run) {
 			// source options (all but the discriminator) survive, in order, unchanged
 			var wantOpts []string
 			for _, o := range source.Options {
-				if o.Name != "type" {
+				if o.Name != "type" && !(exclude && o.Name == "title") {
 					wantOpts = append(wantOpts, "src:"+canonOption(o))
 				}
+			}
+			if _, still := cb.OptionByName("title"); exclude && still {
+				r.Violation("veneer/builder.compose/contract/excluded-option-present", fmt.Sprintf("composed %s builder still has the option `title` listed in exclude_options %s", p.pkg, ctx), replay)
+			}
+			if _, still := cb.OptionByName("type"); still {
+				r.Violation("veneer/builder.compose/contract/discriminator-option-present", fmt.Sprintf("composed %s builder still offers an option for the pinned discriminator %s", p.pkg, ctx), replay)
 			}
 			// composed options: re-rooted, hinted
 			seenFromObj := map[string]int{}
